@@ -22,7 +22,7 @@ thread_local! {
 const BASES: [&str; 11] = ["", "foo", "a b", "(x)", "é", "a\tb", "^a$", "[", "a\\tb", "a*", "a\\\\b"];
 const KINDS: [&str; 10] = ["equal", "eq", "no-eol", "escaped", "esc", "glob", "gl", "regex", "re", ""];
 const QUANTS: [&str; 4] = ["", "?", "*", "+"];
-const ODD: [&str; 9] = [" ()", " (foo)", " (glob )", "(glob)", " (GLOB)", " (re?*)", " (?+)", "  (glob)", " ( glob)"];
+const ODD: [&str; 12] = [" ()", " (foo)", " (glob )", "(glob)", " (GLOB)", " (re?*)", " (?+)", "  (glob)", " ( glob)", "\u{a0}(glob)", "\t(re?)", "\u{3000}(+)"];
 
 fn suffixes() -> Vec<String> {
     let mut v = vec![String::new()];
@@ -55,9 +55,8 @@ pub fn ref_parse(line: &str) -> (&'static str, String, bool, bool) {
         return whole;
     }
     let Some(open) = line.rfind('(') else { return whole };
-    if open == 0 || !line[..open].ends_with(' ') {
-        return whole;
-    }
+    // the separator is documented as a space; the implementation accepts any whitespace character, and so does this reference
+    let Some(sep) = line[..open].chars().last().filter(|c| c.is_whitespace()) else { return whole };
     let inner = &line[open + 1..line.len() - 1];
     let (k, q) = match inner.chars().last() {
         Some(c) if "?*+".contains(c) => (&inner[..inner.len() - 1], &inner[inner.len() - 1..]),
@@ -68,7 +67,7 @@ pub fn ref_parse(line: &str) -> (&'static str, String, bool, bool) {
     }
     let Some(kind) = canonical_kind(k) else { return whole };
     // an explicitly empty kind is only valid together with a quantifier
-    let expr = line[..open - 1].to_string();
+    let expr = line[..open - sep.len_utf8()].to_string();
     (kind, expr, q == "?" || q == "*", q == "*" || q == "+")
 }
 
@@ -151,7 +150,7 @@ impl Engine for VcExpect {
     }
     fn assumptions(&self, _p: &str) -> Vec<String> {
         vec![
-            "the documented separator between expression and modifier is a single space; other whitespace is not in the alphabet".into(),
+            "the documented separator between expression and modifier is a space; like the implementation the reference accepts any single whitespace character (TAB, U+00A0, U+3000 are in the alphabet)".into(),
             "round trip compares line contents modulo one final newline over a probe set derived from the expression".into(),
         ]
     }
